@@ -331,6 +331,9 @@ func (g *gen) families12() {
 	// type or other encoding, small and large (4 KiB, 64 KiB, 256 KiB payloads); every one must decode to its own
 	// declaration (de-duplication, interning or caching across initializers must not leak shape, type or values)
 	g.pairFamily()
+	// an initializer that is also listed in graph.input (older IR style) with a declaration that disagrees with the
+	// tensor's own dims / element type: the weight is what its TensorProto says
+	g.signatureFamily()
 	// U. byte-level single-fault spaces of small weight-only files, exhaustively
 	for _, b := range weightOnly {
 		g.singleFaultSweep("single-fault-weight-file", b, "bytes", 1)
@@ -500,6 +503,51 @@ func (g *gen) pairFamily() {
 				mp := &onnx.ModelProto{IrVersion: 7, Graph: gp, OpsetImport: []*onnx.OperatorSetIdProto{{Version: 13}}}
 				data, _ := proto.MarshalOptions{Deterministic: true}.Marshal(mp)
 				g.run(&Case{Family: "initializer-pairs", Base: fmt.Sprintf("%d bytes %s variant %d", nbytes, fill, vi), Reader: "bytes", ZipFail: -1, Data: data}, true)
+			}
+		}
+	}
+}
+
+func (g *gen) signatureFamily() {
+	r := rng.New(rng.Mix(g.cfg.Seed, 0x5167))
+	for _, dt := range []val.DT{val.Float32, val.Int64, val.Uint8, val.Float64, val.Bool} {
+		for _, raw := range []bool{true, false} {
+			v := GenVal(r, dt, []int{2, 3})
+			tp := mb.TensorProto(&mb.Init{Name: "t", V: v, Raw: raw})
+			decls := []struct {
+				note  string
+				shape []int64
+				et    int32
+				typed bool
+			}{
+				{"same", []int64{2, 3}, int32(dt), true}, {"transposed", []int64{3, 2}, int32(dt), true}, {"flat", []int64{6}, int32(dt), true},
+				{"rank3", []int64{1, 2, 3}, int32(dt), true}, {"other count", []int64{2, 4}, int32(dt), true}, {"dynamic", []int64{0, 3}, int32(dt), true},
+				{"all dynamic", []int64{0, 0}, int32(dt), true}, {"scalar", []int64{}, int32(dt), true}, {"other element type", []int64{2, 3}, int32(val.Int32), true},
+				{"undefined element type", []int64{2, 3}, 0, true}, {"no type", nil, 0, false}, {"negative", []int64{-2, -3}, int32(dt), true}, {"huge", []int64{1 << 40, 3}, int32(dt), true},
+			}
+			for _, d := range decls {
+				if !g.mine() || g.stop {
+					continue
+				}
+				gp := &onnx.GraphProto{Name: "g", Initializer: []*onnx.TensorProto{proto.Clone(tp).(*onnx.TensorProto)}, Output: []*onnx.ValueInfoProto{{Name: "t"}}}
+				vi := &onnx.ValueInfoProto{Name: "t"}
+				if d.typed {
+					sh := &onnx.TensorShapeProto{}
+					for i, e := range d.shape {
+						dim := &onnx.TensorShapeProto_Dimension{}
+						if e == 0 {
+							dim.Value = &onnx.TensorShapeProto_Dimension_DimParam{DimParam: fmt.Sprintf("d%d", i)}
+						} else {
+							dim.Value = &onnx.TensorShapeProto_Dimension_DimValue{DimValue: e}
+						}
+						sh.Dim = append(sh.Dim, dim)
+					}
+					vi.Type = &onnx.TypeProto{Value: &onnx.TypeProto_TensorType{TensorType: &onnx.TypeProto_Tensor{ElemType: d.et, Shape: sh}}}
+				}
+				gp.Input = []*onnx.ValueInfoProto{vi}
+				mp := &onnx.ModelProto{IrVersion: 3, Graph: gp, OpsetImport: []*onnx.OperatorSetIdProto{{Version: 13}}}
+				data, _ := proto.MarshalOptions{Deterministic: true}.Marshal(mp)
+				g.run(&Case{Family: "initializer-vs-signature", Base: fmt.Sprintf("%s raw=%v declared %s", dt, raw, d.note), Reader: "bytes", ZipFail: -1, Data: data}, true)
 			}
 		}
 	}
